@@ -92,3 +92,93 @@ class AddWatcher(object):
             for d in obs['dir']:
                 bad.add('raises[*][%d]' % idx[d])
         return bad
+
+
+def run_coroutine(make, timeout=5.0):
+    """drive a tornado coroutine to completion on a private loop; -> (result, exception)"""
+    import asyncio
+    from tornado import ioloop
+    loop = asyncio.new_event_loop()
+    asyncio.set_event_loop(loop)
+    try:
+        io = ioloop.IOLoop.current()
+        try:
+            return io.run_sync(make, timeout=timeout), None
+        except Exception as e:       # noqa
+            return None, e
+    finally:
+        try:
+            loop.close()
+        except Exception:
+            pass
+        asyncio.set_event_loop(None)
+
+
+@register('circus.arbiter:Arbiter.rm_watcher')
+class RmWatcher(object):
+    """real Arbiter.rm_watcher (through its real @synchronized wrapper) on real stopped Watchers"""
+    def from_model(self, m):
+        return []
+
+    def enumerate(self):
+        for existing in [('a',), ('A', 'b'), ('Ab', 'c', 'D'), ('x', 'WebApp')]:
+            for n in list(existing) + [e.swapcase() for e in existing] + ['zz', None]:
+                for nostop in (True, False):
+                    yield {'existing': list(existing), 'name': n, 'nostop': nostop}
+
+    def run(self, inp):
+        a = bare_arbiter(inp['existing'])
+        before = dict(a._watchers_names)
+        blist = list(a.watchers)
+        obs = {}
+        res, exc = run_coroutine(lambda: a.rm_watcher(inp['name'], nostop=inp['nostop']))
+        if exc is not None:
+            obs['raised'] = type(exc).__name__
+        obs['dir'] = sorted(dir_violations(a))
+        key = inp['name'].lower() if isinstance(inp['name'], str) else None
+        obs['key_was_in'] = key in before
+        obs['key_in'] = key in a._watchers_names
+        target = before.get(key)
+        obs['target_in_list'] = any(w is target for w in a.watchers) if target is not None else False
+        obs['others_kept'] = all((k in a._watchers_names) and a._watchers_names[k] is v
+                                 for k, v in before.items() if k != key) and \
+            all(k in before for k in a._watchers_names if k != key)
+        obs['len'] = (len(blist), len(a.watchers))
+        obs['unchanged'] = before == a._watchers_names and blist == a.watchers
+        obs['target_status'] = target._status if target is not None else None
+        return obs
+
+    def check(self, inp, obs):
+        bad = set()
+        idx = {'dir1': 0, 'dir2': 1, 'dir3': 2, 'dir4': 3}
+
+        def both(name, i):
+            bad.add('post[%s]' % name)
+            bad.add('detached-post[%d]' % i)
+        if 'raised' not in obs:
+            for d in obs['dir']:
+                both(str(idx[d]), idx[d])
+            if not isinstance(inp['name'], str):
+                both('4', 4)
+            if not obs['key_was_in']:
+                both('5', 5)
+            if obs['key_in']:
+                both('removed-from-dict', 6)
+            if obs['target_in_list']:
+                both('removed-from-list', 7)
+            if not obs['others_kept']:
+                both('others-kept', 8)
+            if obs['len'][1] != obs['len'][0] - 1:
+                both('9', 9)
+            if not inp['nostop'] and obs['target_status'] != 'stopped':
+                bad.add('post[stopped-unless-nostop]')
+        else:
+            if obs['raised'] in ('KeyError', 'AttributeError'):
+                if not obs['unchanged']:
+                    bad.add('raises[%s][2]' % obs['raised'])
+                    bad.add('raises[AttributeError][1]')
+                if obs['raised'] == 'KeyError' and obs['key_was_in']:
+                    bad.add('raises[KeyError][1]')
+            else:
+                bad.add('noescape')
+        return bad
